@@ -158,6 +158,8 @@ fn other_cfg(cfg: &Cfg) -> Cfg {
 }
 
 fn check_cfg(ctx: &Ctx, cfg: &Cfg, k_workers: usize, cont_len: usize, hist_depth: usize, thread_hist_depth: usize, rough: bool) -> JobOut {
+    // full merges x assignments product: empty history (quick), histories up to length 1 (thorough)
+    let full_product_hist: usize = if ctx.tier_thorough { 1 } else { 0 };
     let mut out = JobOut::default();
     let alpha = if rough { roughen(&generic_alphabet(cfg.kind, false)) } else { generic_alphabet(cfg.kind, false) };
     let other = other_cfg(cfg);
@@ -220,6 +222,24 @@ fn check_cfg(ctx: &Ctx, cfg: &Cfg, k_workers: usize, cont_len: usize, hist_depth
                             break 'b;
                         }
                         out.stats.count("schedules_threads");
+                        out.stats.nontrivial += 1;
+                    }
+                }
+            }
+        }
+        if out.failed() {
+            break;
+        }
+        // (B') the FULL product: every merge x every worker assignment (up to renaming) x clone worker,
+        // for the shortest histories
+        if !rough && h.len() <= full_product_hist {
+            'p: for m in &all_merges {
+                for a in &all_assign {
+                    for cw in 0..k_workers.min(2) as u8 {
+                        if !run_threads(&pool, &sc, m, a, cw, &exp, &mut out) {
+                            break 'p;
+                        }
+                        out.stats.count("schedules_threads_full_product");
                         out.stats.nontrivial += 1;
                     }
                 }
@@ -509,12 +529,12 @@ pub fn run(ctx: &Ctx) -> CheckResult {
     res.require(res.out.stats.counters.get("schedules_threads").copied().unwrap_or(0) > 1 || res.out.failed(), "no multi-thread schedule was executed");
     res.rule = "case = (configuration, history h at which the clone is taken, schedule): objects {original after h, its clone, unrelated instance with other parameters} each get a continuation; a schedule = interleaving of their operations + assignment of every step to a real OS worker thread; oracle = every output bit-identical to a fresh instance replaying that object's own operations on the main thread; non-trivial = schedule executed on >= 1 worker thread other than main".into();
     res.bounds = format!(
-        "all 22 indicators, periods {{1,3}}, each part on the exact alphabet and on an inexact one (x -> 0.7x+0.013, so that summation order and buffer layout are observable under bit-equality); every history in seq(4 symbols, {hist_depth}) as clone point; (A) all {} merges of 3x{cont_len} ops on one thread; (B) histories up to length {thread_hist_depth}: 3 canonical merges x all worker assignments up to renaming on {k_workers} real threads x clone taken on worker 0/1; (C) all 16x16 continuation pairs for original/clone under 3 sequential schedules; (D) periods 1..5(6): clone after every history up to depth 2(3) and after every prefix up to 2n+2 of two default streams, every continuation of n+2 inputs over 3 symbols for the clone while the original is fed different inputs in between; plus {rounds} free-running 16-thread rounds (SAMPLING, not part of the exhaustive claim)",
+        "all 22 indicators, periods {{1,3}}, each part on the exact alphabet and on an inexact one (x -> 0.7x+0.013, so that summation order and buffer layout are observable under bit-equality); every history in seq(4 symbols, {hist_depth}) as clone point; (A) all {} merges of 3x{cont_len} ops on one thread; (B) histories up to length {thread_hist_depth}: 3 canonical merges x all worker assignments up to renaming on {k_workers} real threads x clone taken on worker 0/1; (B') for the empty history (thorough: histories up to length 1) the FULL product of all merges x all worker assignments x clone worker; (C) all 16x16 continuation pairs for original/clone under 3 sequential schedules; (D) periods 1..5(6): clone after every history up to depth 2(3) and after every prefix up to 2n+2 of two default streams, every continuation of n+2 inputs over 3 symbols for the clone while the original is fed different inputs in between; plus {rounds} free-running 16-thread rounds (SAMPLING, not part of the exhaustive claim)",
         merges(&vec![cont_len; 3]).len()
     );
     let mut assumptions = vec![
         "operation-level atomicity is the complete schedule space as long as instances share no memory: re-checked by a syntactic audit of /repo/src for unsafe/static/thread_local/interior mutability/Rc/Arc/sync/time/randomness (hits listed in coverage.ownership_audit_hits)".to_string(),
-        "merges x worker assignments are enumerated as the union of three slices (all merges on one thread; all assignments for canonical merges; all continuation pairs for sequential schedules), not their full product".to_string(),
+        "merges x worker assignments are enumerated as their full product only for the shortest histories; for longer ones as the union of three slices (all merges on one thread; all assignments for canonical merges; all continuation pairs for sequential schedules)".to_string(),
     ];
     if !audit.is_empty() {
         assumptions.push(format!("AUDIT TRIPPED ({} hits): intra-call preemption on shared memory is NOT covered by the controlled scheduler; only the sampled free-running stage exercises it", audit.len()));
